@@ -131,7 +131,7 @@ class Block:
     """One compressed block.  Everything optional has the encoder-like default."""
     def __init__(self, plain=None, L=None, origptr=None, rle=None, rand=0, crc_value=None,
                  tables=None, selectors=None, nsel_declared=None, surplus=0, surplus_value=0,
-                 start_len=None, paths=None, ntables=None, inuse=None, plain_for_crc=None):
+                 start_len=None, paths=None, ntables=None, inuse=None, plain_for_crc=None, sel_codes=None):
         if L is None:
             if rle is None:
                 rle = rle1(plain)
@@ -149,6 +149,7 @@ class Block:
         self.tables, self.selectors = tables, selectors
         self.nsel_declared, self.surplus, self.surplus_value = nsel_declared, surplus, surplus_value
         self.start_len, self.paths, self.ntables = start_len, paths or {}, ntables
+        self.sel_codes = sel_codes      # raw unary selector codes j (all tables must then be identical)
 
     def symbols(self):
         """MTF + zero-run coding of L: list of symbol numbers (0 RUNA, 1 RUNB, ..., EOB)."""
@@ -187,6 +188,8 @@ class Block:
             sels = [0] * ngroups_needed
         sels = list(sels)
         declared = self.nsel_declared if self.nsel_declared is not None else len(sels) + self.surplus
+        if self.sel_codes is not None:
+            declared = len(self.sel_codes)
         w.put(48, BLOCK_MAGIC, tag + '.magic')
         w.put(32, self.crc_value, tag + '.crc')
         w.put(1, self.rand, tag + '.rand')
@@ -206,6 +209,11 @@ class Block:
         pos = list(range(max(nt, 6)))
         allsel = sels + [self.surplus_value] * self.surplus
         first = True
+        if self.sel_codes is not None:
+            for j in self.sel_codes:
+                w.put(j + 1, ((1 << j) - 1) << 1, (tag + '.selectors') if first else None)
+                first = False
+            allsel = []
         for s in allsel:
             j = pos.index(s)
             pos.pop(j)
@@ -281,3 +289,39 @@ def all_bitflips(data):
 def all_truncations(data):
     for n in range(len(data)):
         yield ('trunc', n), data[:n]
+
+MAGIC_BITS = format(BLOCK_MAGIC, '048b')
+
+def magic_as_selector_codes():
+    """The 48-bit block magic as a sequence of unary selector codes 0, 10, 110
+    (it contains no 111); the last code may be left open: returns (codes, open)
+    where open is the number of trailing 1 bits the next code must start with."""
+    codes, run = [], 0
+    for b in MAGIC_BITS:
+        if b == '1':
+            run += 1
+            assert run < 3
+        else:
+            codes.append(run)
+            run = 0
+    return codes, run
+
+def planted_selectors(prefix_bits, crc32_bits, min_total):
+    """Selector codes (for >= 3 identical tables) whose bit string is:
+    prefix_bits zero bits, the block magic, then crc32_bits (a 32-character
+    0/1 string without '111'), then zeros up to at least min_total codes."""
+    codes = [0] * prefix_bits
+    mc, open1 = magic_as_selector_codes()
+    codes += mc
+    run = open1
+    for b in crc32_bits:
+        if b == '1':
+            run += 1
+            assert run < 3, 'three ones in a row cannot be selector codes for 3 tables'
+        else:
+            codes.append(run)
+            run = 0
+    codes.append(run)           # closes the open code with a 0 bit
+    while len(codes) < min_total:
+        codes.append(0)
+    return codes
